@@ -293,6 +293,7 @@ pub fn run_once(p: &CrashParams, hist: &[usize]) -> StepReport {
         all_ops.push(&sp.alphabet[*oi]);
     }
     let mut failed: Option<String> = None;
+    let mut ckpt_taint = false;
     for (i, op) in all_ops.iter().enumerate() {
         let last = i + 1 == all_ops.len();
         if !enabled(&ex.model, op) {
@@ -308,12 +309,18 @@ pub fn run_once(p: &CrashParams, hist: &[usize]) -> StepReport {
         let ack_ev = iotap::len();
         iotap::mark(&format!("ack:{i}"));
         if ex.model.tainted() {
-            let _ = iotap::take();
-            rep.findings = ex.model.taint.clone();
-            rep.status = "tainted".into();
-            rep.stop = true;
-            rep.key = ex.model.key();
-            return rep;
+            // a checkpoint with an open writer (listed finding): the history is not extended, but its crash points
+            // are still enumerated so that the finding is re-observed (or not) on the real engine
+            if last && ex.model.taint.len() == 1 && ex.model.taint[0] == KF_CHECKPOINT_OPEN_WRITER && matches!(verdict, StepVerdict::Ok) {
+                ckpt_taint = true;
+            } else {
+                let _ = iotap::take();
+                rep.findings = ex.model.taint.clone();
+                rep.status = "tainted".into();
+                rep.stop = true;
+                rep.key = ex.model.key();
+                return rep;
+            }
         }
         if let StepVerdict::Diverged(d) = verdict {
             failed = Some(d);
@@ -355,7 +362,7 @@ pub fn run_once(p: &CrashParams, hist: &[usize]) -> StepReport {
         for s in open {
             m2.apply(&Op::DropSession(s));
         }
-        if m2.tainted() {
+        if m2.tainted() && !ckpt_taint {
             let _ = iotap::take();
             rep.findings = m2.taint.clone();
             rep.status = "tainted".into();
@@ -577,6 +584,17 @@ pub fn run_once(p: &CrashParams, hist: &[usize]) -> StepReport {
         rep.counters.insert(format!("trigger:{k}"), v);
     }
     rep.outcome = format!("{}:{}:{}", events.len(), n_open_fail, problems.len());
+    if ckpt_taint {
+        rep.findings = vec![KF_CHECKPOINT_OPEN_WRITER.to_string()];
+        rep.stop = true;
+        if problems.is_empty() {
+            rep.status = "tainted".into();
+        } else {
+            rep.status = "known".into();
+            rep.detail = problems[0].clone();
+        }
+        return rep;
+    }
     if !problems.is_empty() {
         rep.status = "violation".into();
         let mut script: Vec<String> = vec![];
